@@ -45,6 +45,27 @@ def writeGfa (g : G D) : Option String :=
 def sliceDebug (start : Nat) (s : Seq) : String :=
   if s.length < Gen.sliceDebugLimit then seqStr s else s!"start: {start}, len: {s.length}, is_rc: false"
 
+/-! #### JSON strings as serde_json writes them (`format_escaped_str`) -/
+
+def hexDigit (n : Nat) : Char := "0123456789abcdef".toList.getD n '0'
+
+/-- the escape of one character: `\"`, `\\`, `\b \t \n \f \r`, `\u00XX` for the other control characters, the character itself otherwise -/
+def escapeChar (c : Char) : List Char :=
+  if c = '"' then ['\\', '"']
+  else if c = '\\' then ['\\', '\\']
+  else if c.toNat = 8 then ['\\', 'b']
+  else if c.toNat = 9 then ['\\', 't']
+  else if c.toNat = 10 then ['\\', 'n']
+  else if c.toNat = 12 then ['\\', 'f']
+  else if c.toNat = 13 then ['\\', 'r']
+  else if c.toNat < 32 then ['\\', 'u', '0', '0', hexDigit (c.toNat / 16), hexDigit (c.toNat % 16)]
+  else [c]
+
+def jsonEscape (s : String) : List Char := s.toList.flatMap escapeChar
+
+/-- `serde_json::to_writer(w, &str)` -/
+def jsonStr (s : String) : String := "\"" ++ String.ofList (jsonEscape s) ++ "\""
+
 /-- `Node::to_json` of every node: id, length, rendered payload, `Debug` of the sequence slice -/
 def nodeItems (g : G D) (fmt : D → String) : List String :=
   let starts := (g.nodes.foldl (fun (acc : List Nat × Nat) nd => (acc.1 ++ [acc.2], acc.2 + nd.seq.length)) ([], 0)).1
@@ -82,7 +103,7 @@ def toJsonRestImp (g : G D) (fmt : D → String) (rest : Option (List (String ×
     let (links, wroteAny) := linksImp allEdges
     let linksTxt := if wroteAny then links ++ "\n" else links
     let restTxt := match rest with
-      | some kvs => kvs.foldl (fun acc (kv : String × String) => acc ++ ",\n" ++ "\"" ++ kv.1 ++ "\": " ++ kv.2 ++ "\n") ""
+      | some kvs => kvs.foldl (fun acc (kv : String × String) => acc ++ ",\n" ++ jsonStr kv.1 ++ ": " ++ kv.2 ++ "\n") ""
       | none => "\n"
     some ("{\n\"nodes\": [\n" ++ nodesTxt ++ "],\n" ++ "\"links\": [\n" ++ linksTxt ++ "]\n" ++ restTxt ++ "}\n")
 
@@ -102,7 +123,7 @@ def jsonDoc (g : G D) (fmt : D → String) (rest : Option (List (String × Strin
     let groups := linkGroups allEdges 0
     let arr := fun (items : List String) => if items.isEmpty then "" else ",\n".intercalate items ++ "\n"
     let restTxt := match rest with
-      | some kvs => String.join (kvs.map fun (kv : String × String) => ",\n" ++ "\"" ++ kv.1 ++ "\": " ++ kv.2 ++ "\n")
+      | some kvs => String.join (kvs.map fun (kv : String × String) => ",\n" ++ jsonStr kv.1 ++ ": " ++ kv.2 ++ "\n")
       | none => "\n"
     some ("{\n\"nodes\": [\n" ++ arr (nodeItems g fmt) ++ "],\n" ++ "\"links\": [\n" ++ arr groups ++ "]\n" ++ restTxt ++ "}\n")
 
